@@ -14,6 +14,7 @@ import (
 type Gen struct {
 	r       *rand.Rand
 	hostile bool
+	plain   bool
 }
 
 func NewGen(seed int64, stream string) *Gen {
@@ -42,13 +43,27 @@ func (g *Gen) ID() ap.IRI {
 	return ap.IRI(idPool[g.Intn(len(idPool))])
 }
 
+// ids that differ in host, path or query (pairwise non-equivalent under IRI.Equals)
+var distinctPool = []string{
+	"https://example.com/actors/alice", "https://example.com/actors/bob", "https://example.com/notes/1", "https://example.org/a/c",
+	"https://social.example:8443/u/carol", "https://example.net/inbox", "https://example.net/users/dan/outbox", "https://example.com/notes/2?x=1",
+	"https://www.w3.org/ns/activitystreams#Public",
+}
+
 var textPool = []string{
 	"hello", "Hello World", "<p>html &amp; stuff</p>", "say \"hi\"", `C:\new\table`, "line1\nline2", "tab\there",
 	"42", "true", "[1,2]", `{"a":1}`, "null", `\u0041`, `\\u0041`, "\u00e9t\u00e9", "\U0001F600 smile", "\u2028sep", "a", "\\", "\"",
 	"x\x01y", " leading", "trailing ", "-",
 }
 
-func (g *Gen) Text() []byte { return []byte(textPool[g.Intn(len(textPool))]) }
+func (g *Gen) Text() []byte {
+	if g.plain {
+		return []byte(plainPool[g.Intn(len(plainPool))])
+	}
+	return []byte(textPool[g.Intn(len(textPool))])
+}
+
+var plainPool = []string{"hello", "Hello World", "a", "une phrase", "<p>html</p>", "x y z", "Grüße", "日本語", "ok.", "A-1"}
 
 var langPool = []string{"-", "en", "fr", "de", "en-US"}
 
@@ -93,19 +108,19 @@ func (g *Gen) Time(nanos bool) time.Time {
 
 var typeByKind = map[string][]ap.ActivityVocabularyType{
 	"Object":                {"", ap.ObjectType, ap.NoteType, ap.ArticleType, ap.DocumentType, ap.ImageType, ap.VideoType, ap.EventType, ap.PageType, ap.AudioType},
-	"Actor":                 {"", ap.ActorType, ap.PersonType, ap.ServiceType, ap.GroupType, ap.ApplicationType, ap.OrganizationType},
-	"Activity":              {"", ap.ActivityType, ap.CreateType, ap.UpdateType, ap.LikeType, ap.FollowType, ap.BlockType, ap.DeleteType, ap.AnnounceType, ap.UndoType, ap.AcceptType},
-	"IntransitiveActivity":  {"", ap.IntransitiveActivityType, ap.ArriveType, ap.TravelType},
-	"Question":              {"", ap.QuestionType},
-	"Collection":            {"", ap.CollectionType},
-	"CollectionPage":        {"", ap.CollectionPageType},
-	"OrderedCollection":     {"", ap.OrderedCollectionType},
-	"OrderedCollectionPage": {"", ap.OrderedCollectionPageType},
-	"Place":                 {"", ap.PlaceType},
-	"Profile":               {"", ap.ProfileType},
-	"Relationship":          {"", ap.RelationshipType},
-	"Tombstone":             {"", ap.TombstoneType},
-	"Link":                  {"", ap.LinkType, ap.MentionType},
+	"Actor":                 {ap.ActorType, ap.PersonType, ap.ServiceType, ap.GroupType, ap.ApplicationType, ap.OrganizationType},
+	"Activity":              {ap.ActivityType, ap.CreateType, ap.UpdateType, ap.LikeType, ap.FollowType, ap.BlockType, ap.DeleteType, ap.AnnounceType, ap.UndoType, ap.AcceptType},
+	"IntransitiveActivity":  {ap.IntransitiveActivityType, ap.ArriveType, ap.TravelType},
+	"Question":              {ap.QuestionType},
+	"Collection":            {ap.CollectionType},
+	"CollectionPage":        {ap.CollectionPageType},
+	"OrderedCollection":     {ap.OrderedCollectionType},
+	"OrderedCollectionPage": {ap.OrderedCollectionPageType},
+	"Place":                 {ap.PlaceType},
+	"Profile":               {ap.ProfileType},
+	"Relationship":          {ap.RelationshipType},
+	"Tombstone":             {ap.TombstoneType},
+	"Link":                  {ap.LinkType, ap.MentionType},
 }
 
 var structTypes = []reflect.Type{
@@ -128,6 +143,8 @@ type GenOpts struct {
 	NilEntries bool // allow nil entries in lists
 	Hostile    bool // string-typed properties (ids, types, media types, units, tags, keys) drawn from the hostile pool
 	SmallDur   bool // durations: whole seconds, |d| < 24h
+	PlainText  bool // natural-language text drawn from a plain pool (no escapes, no JSON look-alikes): C06 owns the rest
+	DistinctID bool // members of one list carry pairwise distinct, non-empty ids
 }
 
 func DefaultOpts() GenOpts {
@@ -137,6 +154,7 @@ func DefaultOpts() GenOpts {
 // Struct returns a random value of the given struct type (pointer or value form).
 func (g *Gen) Struct(rt reflect.Type, o GenOpts) ap.Item {
 	g.hostile = o.Hostile
+	g.plain = o.PlainText
 	pv := reflect.New(rt)
 	g.fill(pv.Elem(), o)
 	if o.ValueForms && g.Chance(1, 4) {
@@ -253,6 +271,31 @@ func (g *Gen) Items(o GenOpts) ap.ItemCollection {
 	n := 1 + g.Intn(3)
 	out := make(ap.ItemCollection, 0, n)
 	o.Depth--
+	if o.DistinctID {
+		perm := g.r.Perm(len(distinctPool))
+		for i := 0; i < n; i++ {
+			id := ap.IRI(distinctPool[perm[i]])
+			if o.Depth <= 0 || g.Chance(1, 2) {
+				out = append(out, id)
+				continue
+			}
+			oo := o
+			oo.AlwaysID = true
+			it := g.Struct(structTypes[g.Intn(len(structTypes))], oo)
+			v := reflect.ValueOf(it)
+			if v.Kind() == reflect.Pointer {
+				v.Elem().FieldByName("ID").SetString(string(id))
+			} else {
+				// value forms are copies: rebuild as pointer, set id, take the value again
+				pv := reflect.New(v.Type())
+				pv.Elem().Set(v)
+				pv.Elem().FieldByName("ID").SetString(string(id))
+				it = pv.Elem().Interface().(ap.Item)
+			}
+			out = append(out, it)
+		}
+		return out
+	}
 	for i := 0; i < n; i++ {
 		if o.NilEntries && g.Chance(1, 12) {
 			out = append(out, nil)
